@@ -22,8 +22,8 @@ RULE = (
     "distinct trace levels, or a None / argnums= / 'same' registration; checkpoint at order >= 2; distinct by configuration."
 )
 
-VJP_APIS = ["defvjp", "defvjp_none", "defvjp_argnums_kw", "defvjp_argnum", "defvjp_argnums", "no_vjp"]
-JVP_APIS = ["defjvp", "defjvp_none", "defjvp_argnum", "def_linear", "defjvp_same", "none"]
+VJP_APIS = ["defvjp", "defvjp_none", "defvjp_argnums_kw", "defvjp_argnum", "defvjp_argnums", "no_vjp", "defvjp_argnums_positional"]
+JVP_APIS = ["defjvp", "defjvp_none", "defjvp_argnum", "def_linear", "defjvp_same", "none", "defjvp_argnums_positional"]
 
 
 def poly(args, k, cs, ds):
@@ -57,7 +57,7 @@ def d2poly(i, j, args, k, cs, ds):
 def prim_body(c):
     import autograd
     import autograd.numpy as anp
-    from autograd.extend import def_linear, defjvp, defjvp_argnum, defvjp, defvjp_argnum, defvjp_argnums, primitive
+    from autograd.extend import def_linear, defjvp, defjvp_argnum, defjvp_argnums, defvjp, defvjp_argnum, defvjp_argnums, primitive
     from autograd.tracer import getval, isbox
 
     n = c.int(1, 5)
@@ -74,7 +74,7 @@ def prim_body(c):
         reg.append("rule" if r <= 3 else ("none" if r == 4 else "missing"))
     if vapi == "defvjp":
         reg = ["rule" if r == "none" else r for r in reg]
-    if vapi in ("defvjp_argnum", "defvjp_argnums"):
+    if vapi in ("defvjp_argnum", "defvjp_argnums", "defvjp_argnums_positional"):
         reg = ["rule"] * n  # these APIs register one maker for all positions
     # trace-level assignment: a_i = alpha_i * t1 + gamma_i * t2 + beta_i
     levels = [c.choice(["const", "outer", "inner", "both"]) for _ in range(n)]
@@ -138,12 +138,25 @@ def prim_body(c):
                 LOG.append(("vjp", a_, ans, args, kwargs.get("k", 1.0)))
             return lambda g: tuple(g * dpoly(a_, list(args), kwargs.get("k", 1.0), cs, ds) for a_ in argnums)
         defvjp_argnums(p, vjp_argnums)
+    elif vapi == "defvjp_argnums_positional":
+        # the style of the in-tree rules written against this API (`if 0 in argnums: ...`): the cotangents are produced position by
+        # position in ascending order, relying on the differentiated positions being handed over in ascending order too
+        def vjp_argnums_pos(argnums, ans, args, kwargs):
+            def vjp(g):
+                out = []
+                for pos_ in range(n):
+                    if pos_ in argnums:
+                        LOG.append(("vjp", pos_, ans, args, kwargs.get("k", 1.0)))
+                        out.append(g * dpoly(pos_, list(args), kwargs.get("k", 1.0), cs, ds))
+                return tuple(out)
+            return vjp
+        defvjp_argnums(p, vjp_argnums_pos)
     jreg = list(reg)
     if vapi == "no_vjp":
         reg = ["missing"] * n  # no reverse-mode rule registered at all: every reverse-mode request must raise
     if japi == "defjvp":
         jreg = ["rule" if r == "none" else r for r in reg]
-    if japi in ("defjvp_argnum", "def_linear"):
+    if japi in ("defjvp_argnum", "def_linear", "defjvp_argnums_positional"):
         jreg = ["rule"] * n
     if japi in ("defjvp", "defjvp_none", "defjvp_same"):
         idx = [i for i in range(n) if jreg[i] != "missing"]
@@ -153,6 +166,15 @@ def prim_body(c):
         defjvp_argnum(p, lambda argnum, g, ans, args, kwargs: g * dpoly(argnum, list(args), kwargs.get("k", 1.0), cs, ds))
     elif japi == "def_linear":
         def_linear(p)
+    elif japi == "defjvp_argnums_positional":
+        def jvp_argnums_pos(argnums, gs, ans, args, kwargs):
+            gs = list(gs)
+            total = 0.0
+            for pos_ in range(n):  # tangents consumed in ascending order of position, as the in-tree rules do (`gs[0]`, `gs[-1]`)
+                if pos_ in argnums:
+                    total = total + gs.pop(0) * dpoly(pos_, list(args), kwargs.get("k", 1.0), cs, ds)
+            return total
+        defjvp_argnums(p, jvp_argnums_pos)
     sample = {"n": n, "vapi": vapi, "japi": japi, "reg": reg, "levels": levels, "same_var": same_var, "k": k0, "vseed": vseed}
     bucket = lambda kind: f"C17|prim|{kind}"
 
